@@ -7,9 +7,10 @@ import Driver.C15
 import Driver.C12
 import Driver.C19
 import Driver.C20
+import Driver.C03
 open Cspuz Cspuz.Drv
 
-def handlers : List (Sexp → Option Sexp) := [handleC13, handleGraph, handleCore, handleC18, handleC14, handleC15, handleC12, handleC19, handleC20]
+def handlers : List (Sexp → Option Sexp) := [handleC13, handleGraph, handleCore, handleC18, handleC14, handleC15, handleC12, handleC19, handleC20, handleC03]
 
 def handle (s : Sexp) : Sexp :=
   match s with
